@@ -22,7 +22,8 @@ RULE = ("the whole configuration lattice is enumerated: {TripleStream,QuadStream
         "logical type} x entry points {generic stream_frames(sink|generator), flat_stream_to_file, grouped_stream_to_file, "
         "sink.serialize; rdflib Graph.serialize(stream=|options=), flat_stream_to_file, grouped_stream_to_file; generator entry "
         "points also with the frames gathered in a list before being written; plus two flat_stream_to_file calls that share one "
-        "options object and overlap (the inner call made from inside the outer call's input generator)} x inputs of "
+        "options object and overlap (the inner call made from inside the outer call's input generator); plus the store/sink entry "
+        "points with namespace declarations on (1 or 6 bindings) x frame size {1,3,5,12,250}} x inputs of "
         "1, 3, 5 statements with fresh terms and 4, 6 statements re-using terms (single-row statements). Oracle for every configuration that returns without raising: every stream the entry point "
         "created or was given has an empty flow, and the bytes decode (pyjelly parser and reference decoder) to the input "
         "(documented quads->TRIPLES projection applied). Raising is always acceptable. Non-trivial = distinct accepted "
@@ -108,6 +109,17 @@ def enumerate_configs(tier: str):
                 if ename in ("g_stream_frames_sink", "g_stream_frames_gen", "r_stream_frames_gen") and n in (5, -6):
                     # a batching caller gathers the frames of the generator entry point before writing them
                     yield dict(c, collect=True)
+    # store / sink entry points with namespace declarations switched on: 1 or 6 bindings against small frame sizes
+    # (the declaration rows alone can fill a frame before the first statement)
+    for (ename, integ, explicit), fs, k, n, delimited in itertools.product(
+            [e for e in ENTRIES if e[0] in ("g_stream_frames_sink", "g_grouped_to_file", "r_serialize_stream",
+                                            "r_serialize_options", "r_grouped_to_file")],
+            (1, 3, 5, 12, 250), (1, 6), (3, -6), (True, False)):
+        for phys, arity in ([(1, 3), (2, 4), (3, 4)] if explicit else [(0, 3), (0, 4)]):
+            for fk in ("inferred", "FlatTriplesFrameFlow" if arity == 3 else "FlatQuadsFrameFlow"):
+                yield {"entry": ename, "integration": integ, "physical": phys, "arity": arity,
+                       "logical": 1 if arity == 3 else 2, "delimited": delimited, "frame_size": fs, "flow": fk,
+                       "flow_logical": None, "n": n, "collect": False, "ns": k}
     for n in ns:
         for arity in (3, 4):
             yield {"entry": "g_sink_serialize", "integration": "generic", "physical": 0, "arity": arity, "logical": None,
@@ -137,6 +149,7 @@ def run_config(c: dict) -> dict:
     stmts = inputs(c["arity"], c["n"])
     out = io.BytesIO()
     res: dict = {"stmts": stmts}
+    binds = [(f"p{i}", f"http://ex.org/nsdecl/{i}/") for i in range(c.get("ns") or 0)]
     try:
         flow = build_flow(c)
         if c["entry"] == "g_sink_serialize":
@@ -144,14 +157,15 @@ def run_config(c: dict) -> dict:
         else:
             options = SerializerOptions(
                 flow=flow, frame_size=c["frame_size"], logical_type=c["logical"],
-                params=StreamParameters(delimited=c["delimited"], generalized_statements=True, rdf_star=True),
+                params=StreamParameters(delimited=c["delimited"], generalized_statements=True, rdf_star=True,
+                                        namespace_declarations=bool(binds)),
                 lookup_preset=LookupPreset.small())
             cfg = {"integration": c["integration"], "physical": c["physical"]}
             write = write_delimited if c["delimited"] else write_single
             e = c["entry"]
             if e == "g_stream_frames_sink":
                 stream = pj.make_stream(cfg, options)
-                for fr in _maybe_list(gser.stream_frames(stream, pj.generic_sink_of(stmts)), c):
+                for fr in _maybe_list(gser.stream_frames(stream, pj.generic_sink_of(stmts, binds)), c):
                     write(fr, out)
             elif e == "g_stream_frames_gen":
                 stream = pj.make_stream(cfg, options)
@@ -160,18 +174,18 @@ def run_config(c: dict) -> dict:
             elif e == "g_flat_to_file":
                 gser.flat_stream_to_file((T.stmt_to_generic(s) for s in stmts), out, options=options)
             elif e == "g_grouped_to_file":
-                gser.grouped_stream_to_file((s for s in [pj.generic_sink_of(stmts)]), out, options=options)
+                gser.grouped_stream_to_file((s for s in [pj.generic_sink_of(stmts, binds)]), out, options=options)
             elif e == "r_serialize_stream":
                 stream = pj.make_stream(cfg, options)
-                store = pj.rdflib_store_of(stmts, dataset=c["arity"] == 4)
+                store = pj.rdflib_store_of(stmts, binds, dataset=c["arity"] == 4)
                 store.serialize(out, format="jelly", stream=stream, options=options)
             elif e == "r_serialize_options":
-                store = pj.rdflib_store_of(stmts, dataset=c["arity"] == 4)
+                store = pj.rdflib_store_of(stmts, binds, dataset=c["arity"] == 4)
                 store.serialize(out, format="jelly", options=options)
             elif e == "r_flat_to_file":
                 rser.flat_stream_to_file((T.stmt_to_rdflib(s) for s in stmts), out, options=options)
             elif e == "r_grouped_to_file":
-                store = pj.rdflib_store_of(stmts, dataset=c["arity"] == 4)
+                store = pj.rdflib_store_of(stmts, binds, dataset=c["arity"] == 4)
                 rser.grouped_stream_to_file((s for s in [store]), out, options=options)
             elif e == "r_stream_frames_gen":
                 stream = pj.make_stream(cfg, options)
@@ -324,7 +338,7 @@ def run_short_write(c: dict):
         if e == "g_flat_to_file":
             gser.flat_stream_to_file((T.stmt_to_generic(s) for s in stmts), out, options=options)
         elif e == "g_grouped_to_file":
-            gser.grouped_stream_to_file((s for s in [pj.generic_sink_of(stmts)]), out, options=options)
+            gser.grouped_stream_to_file((s for s in [pj.generic_sink_of(stmts, binds)]), out, options=options)
         elif e == "r_flat_to_file":
             rser.flat_stream_to_file((T.stmt_to_rdflib(s) for s in stmts), out, options=options)
         elif e == "r_grouped_to_file":
